@@ -85,6 +85,24 @@ func (famCmdgen) Gen(r *rand.Rand, n int, _ map[string]string) []any {
 				in.Stages = append(in.Stages, stageIn{T: "line", Op: []string{"eq", "neq"}[r.Intn(2)], Val: B(pick(r, []string{"err", "-1", "c2", "x", ""})), Re: eps})
 			}
 		}
+		if r.Intn(8) == 0 {
+			// a window that is one instant (no frame lies on it): nothing is printed, in particular not what was logged just before
+			in.Start = []int{1700000050, 0}
+			in.End = []int{1700000050, 0}
+			for c := range in.Ctrs {
+				for j := range in.Ctrs[c].Frames {
+					if d := in.Ctrs[c].Frames[j].TS[0] - 1700000050; d > -2 && d < 2 {
+						in.Ctrs[c].Frames[j].TS[0] += 4
+					}
+				}
+				fr := in.Ctrs[c].Frames
+				for a := 1; a < len(fr); a++ {
+					for b := a; b > 0 && fr[b].TS[0] < fr[b-1].TS[0]; b-- {
+						fr[b], fr[b-1] = fr[b-1], fr[b]
+					}
+				}
+			}
+		}
 		in.Limit = []int{-1, -1, 1, 2, 3, 5, 100}[r.Intn(7)]
 		out = append(out, in)
 	}
